@@ -258,7 +258,7 @@ def shard(ctx):
             else:
                 ctx.count('py:potential_capture_through_metavariable_not_judged')
             continue
-        if res_e != exp:
+        if res_e != exp and tb.norm_eq(res_e) != tb.norm_eq(exp):
             cls = type(p).__name__
             feat = ''
             if cls == 'Instantiate' and set(p.inst.keys()) != set(tb.metavar_ids(tb.of_repo(p.pattern))):
@@ -290,7 +290,7 @@ def shard(ctx):
             except Exception as ex:
                 ctx.violation('py_instantiate_raises:composition', f'instantiate raised {type(ex).__name__} during composition', dict(w, error=repr(ex)))
                 continue
-            if two != one or one != exp2:
+            if (two != one or one != exp2) and not (tb.norm_eq(two) == tb.norm_eq(one) == tb.norm_eq(exp2)):
                 ctx.violation('py_instantiate_not_compositional', 'p.instantiate(d1).instantiate(d2) != p.instantiate(d1 o d2)',
                               dict(w, delta2={str(i): tb.show(v) for i, v in d2_e.items()}, twice=tb.show(two), once=tb.show(one), expected=tb.show(exp2)))
     # ---------------- (c) Rust functions
